@@ -14,8 +14,9 @@ FIRST.update({'C01-e': 'caught', 'C01-f': 'missed', 'C02-e': 'missed', 'C02-f': 
 FIRST.update({'C01-g': 'missed', 'C01-h': 'missed', 'C02-g': 'missed', 'C02-h': 'caught', 'C03-g': 'caught', 'C03-h': 'caught', 'C04-g': 'missed', 'C04-h': 'caught', 'C05-g': 'missed', 'C05-h': 'caught', 'C07-g': 'caught', 'C07-h': 'missed', 'C08-g': 'caught', 'C08-h': 'caught', 'C09-g': 'caught', 'C09-h': 'caught', 'C10-g': 'missed', 'C10-h': 'missed', 'C11-g': 'caught', 'C11-h': 'caught', 'C12-g': 'missed', 'C12-h': 'caught', 'C13-g': 'missed', 'C13-h': 'caught', 'C14-g': 'caught', 'C14-h': 'caught', 'C15-g': 'caught', 'C15-h': 'caught', 'C16-g': 'caught', 'C16-h': 'missed', 'C17-g': 'caught', 'C17-h': 'missed', 'C18-g': 'missed', 'C18-h': 'missed', 'C19-g': 'caught', 'C19-h': 'caught', 'C20-g': 'missed', 'C20-h': 'missed'})
 FIRST.update({'C04-i': 'caught', 'C04-j': 'caught', 'C05-i': 'caught', 'C05-j': 'caught', 'C06-i': 'caught', 'C06-j': 'caught', 'C08-i': 'caught', 'C08-j': 'caught', 'C09-i': 'caught', 'C09-j': 'caught', 'C10-i': 'caught', 'C10-j': 'missed', 'C11-i': 'caught', 'C11-j': 'caught', 'C12-i': 'caught', 'C12-j': 'missed', 'C13-i': 'caught', 'C13-j': 'caught', 'C14-i': 'missed', 'C14-j': 'caught', 'C15-i': 'caught', 'C15-j': 'caught', 'C16-i': 'caught', 'C16-j': 'missed', 'C17-i': 'caught', 'C17-j': 'caught', 'C18-i': 'caught', 'C18-j': 'caught', 'C19-i': 'caught', 'C19-j': 'missed', 'C20-i': 'missed', 'C20-j': 'missed', 'C01-i': 'missed', 'C01-j': 'caught', 'C03-i': 'caught', 'C03-j': 'missed', 'C02-i': 'missed by C02 (caught by C05, C04)', 'C02-j': 'missed by C02 (caught by C05)', 'C07-i': 'caught', 'C07-j': 'caught', 'C06-g': 'caught', 'C06-h': 'caught'})
 FIRST.update({'C02-k': 'missed by C02 (caught by C05)', 'C02-l': 'missed by C02 (caught by C01)', 'C04-k': 'caught', 'C04-l': 'missed', 'C06-k': 'missed by C06 (caught by C03)', 'C06-l': 'caught', 'C08-k': 'caught', 'C08-l': 'caught', 'C09-k': 'caught', 'C09-l': 'caught', 'C10-k': 'caught', 'C10-l': 'caught', 'C11-k': 'caught', 'C11-l': 'caught', 'C12-k': 'caught', 'C12-l': 'caught', 'C13-k': 'caught', 'C13-l': 'caught', 'C14-k': 'caught', 'C14-l': 'caught', 'C15-k': 'missed by C15 (caught by C14)', 'C15-l': 'caught', 'C16-k': 'caught', 'C16-l': 'caught', 'C17-k': 'caught', 'C17-l': 'caught', 'C18-k': 'caught', 'C18-l': 'caught', 'C19-k': 'caught', 'C19-l': 'caught', 'C20-k': 'caught', 'C20-l': 'caught', 'C01-k': 'caught', 'C01-l': 'missed by C01 (caught by C03, C06)', 'C03-k': 'caught', 'C03-l': 'caught', 'C05-k': 'caught', 'C05-l': 'caught', 'C07-k': 'caught', 'C07-l': 'caught'})
+FIRST.update({'C04-m': 'caught', 'C04-n': 'caught', 'C05-m': 'caught', 'C05-n': 'caught', 'C06-m': 'missed', 'C06-n': 'missed', 'C07-m': 'caught', 'C07-n': 'missed', 'C08-m': 'caught', 'C08-n': 'caught', 'C09-m': 'caught', 'C09-n': 'caught', 'C10-m': 'missed', 'C10-n': 'caught', 'C11-m': 'caught', 'C11-n': 'caught', 'C12-m': 'caught', 'C12-n': 'caught', 'C13-m': 'caught', 'C13-n': 'caught', 'C14-m': 'caught', 'C14-n': 'missed', 'C15-m': 'caught', 'C15-n': 'missed by C15 (caught by C14)', 'C16-m': 'caught', 'C16-n': 'caught', 'C17-m': 'missed', 'C17-n': 'missed', 'C18-m': 'caught', 'C18-n': 'caught', 'C19-m': 'caught', 'C19-n': 'caught', 'C20-m': 'missed', 'C20-n': 'missed', 'C01-m': 'caught', 'C01-n': 'missed', 'C02-m': 'missed by C02 (caught by C01)', 'C02-n': 'missed by C02 (caught by C05)', 'C03-m': 'caught', 'C03-n': 'caught'})
 TIER = {"C17-e": "thorough"}      # needs a model whose pickle exceeds 8 MiB: generated in the thorough tier only
-ALSO = {"C02-a": ["C10"], "C07-b": ["C09"], "C02-b": ["C01"], "C01-d": ["C10"], "C02-d": ["C01"], "C02-c": ["C05"], "C14-d": ["C16"], "C01-h": ["C10"], "C02-i": ["C05", "C04"], "C02-j": ["C05"], "C02-k": ["C05"], "C02-l": ["C01"], "C06-k": ["C03"], "C15-k": ["C14"], "C01-l": ["C03", "C06"]}
+ALSO = {"C02-a": ["C10"], "C07-b": ["C09"], "C02-b": ["C01"], "C01-d": ["C10"], "C02-d": ["C01"], "C02-c": ["C05"], "C14-d": ["C16"], "C01-h": ["C10"], "C02-i": ["C05", "C04"], "C02-j": ["C05"], "C02-k": ["C05"], "C02-l": ["C01"], "C06-k": ["C03"], "C15-k": ["C14"], "C01-l": ["C03", "C06"], "C15-n": ["C14"], "C02-m": ["C01"], "C02-n": ["C05"]}
 sel = sys.argv[1:]
 REPO_ARGS = []
 if "--repo" in sel:                      # bulk re-run inside a scratch worktree (see try_mutant.py)
